@@ -246,6 +246,10 @@ pub fn run(ctx: &Ctx) -> i32 {
     explore(ctx, &format!("ENV wide T=2 depth<={depth}"), Wide { alphabet: env_alphabet(2), bases: alpha::bases(false), max_add: depth, repeat: false }, C05, shared.clone());
     explore(ctx, &format!("ENV wide T=2 small values (0.01-0.52 kWh) depth<={}", depth - 1), Wide { alphabet: env_alphabet_v(2, true), bases: alpha::bases(false), max_add: depth - 1, repeat: false }, C05, shared.clone());
     explore(ctx, &format!("ENV wide T=1 (repeated lines) depth<={depth}"), Wide { alphabet: env_alphabet(1), bases: alpha::bases(false), max_add: depth, repeat: true }, C05, shared.clone());
+    {
+        let n = if ctx.quick() { 14 } else { 16 };
+        explore(ctx, &format!("COMBO: complete 12-step buildings, {n} subsystems absent/present"), Layered { slots: alpha::combo_slots(n), bases: alpha::bases(false) }, C05, shared.clone());
+    }
     explore(ctx, "seeded: shipped files + <=2 ENV lines (12 steps)", Wide { alphabet: alpha::seeded_letters(), bases: alpha::shipped_bases(), max_add: if ctx.quick() { 1 } else { 2 }, repeat: false }, C05, shared.clone());
     finish(
         ctx,
